@@ -20,7 +20,10 @@ Inductive c03case :=
    records shown before and after the latest restart *)
 | CMapLog (segs : list (list mapop)) (before after : list (N * N * N * N))
 (* GET nextlabel before and after *)
-| CNext (before after : N).
+| CNext (before after : N)
+(* records appended to a log by one engine instance, read by a re-opened one: how many were
+   appended / returned by ReadAll / by StreamAll, and whether each returned exactly the appended ones *)
+| CLogRT (written readall streamall : nat) (readall_same stream_same : bool).
 
 Fixpoint run_img (m : pmgr) (img : image) (ops : list pop) : pmgr * image :=
   match ops with
@@ -84,10 +87,12 @@ Definition model_ok (c : c03case) : bool :=
       list_eqb quad_eqb (mp_splits s) before && list_eqb quad_eqb (mp_splits (replay mp_empty lg)) after in
     check true || check false
   | CNext _ _ => true
+  | CLogRT _ _ _ _ _ => true
   end.
 
 (* 0 holds; 1 an endpoint (incl. branch-name resolution, next label, instance info) answers
-   differently after the restart; 2 repo metadata differs; 3 split records differ *)
+   differently after the restart; 2 repo metadata differs; 3 split records differ, or a
+   re-opened mutation log does not return exactly the records appended *)
 Definition spec_class (c : c03case) : nat :=
   match c with
   | CGen kinds => if forallb (fun k : nat * nat => Nat.eqb (snd k) 0) kinds then 0%nat else 1%nat
@@ -100,6 +105,7 @@ Definition spec_class (c : c03case) : nat :=
   | CMapLog _ before after => if list_eqb quad_eqb before after then 0%nat else 3%nat
   | CNext before after =>
     if before =? after then 0%nat else 1%nat
+  | CLogRT w ra sa rs ss => if rs && ss && Nat.eqb w ra && Nat.eqb w sa then 0%nat else 3%nat
   end.
 
 Fixpoint classify_from (i : nat) (l : list c03case) : list (nat * nat) :=
